@@ -43,7 +43,7 @@ ANCHORS = ['pfhedge.nn.modules.loss:HedgeLoss.cash',
            'pfhedge._utils.operations:ensemble_mean']
 PYTEST_WORKLOAD = True  # thorough tier also runs /repo/tests with these passive monitors attached (DESIGN.md 2.7)
 DECIDING = ["cash.history_independent", "cash.equivalent", "cash.bounds", "cash.qcvar_is_minus_risk", "price.is_minus_cash", "price.shift_equivariant", "price.entropic_equals_loss"]
-REQUIRED_BRANCHES = ["price.init_state_given", "cash.erm_large_ax", "cash.default_search", "cash.closed_form", "cash.target_tensor", "cash.multi_column", "cash.constant_sample",
+REQUIRED_BRANCHES = ["cash.oce_with_nonzero_w", "price.init_state_given", "cash.erm_large_ax", "cash.default_search", "cash.closed_form", "cash.target_tensor", "cash.multi_column", "cash.constant_sample",
                      "price.clauses", "price.n_times>1"]
 
 _CTX = None
@@ -72,6 +72,14 @@ class MeanSemiDev(HedgeLoss):
         x = input - target
         m = x.mean(0)
         return -m + 0.5 * torch.relu(m - x).square().mean(0).sqrt()
+
+
+def _u_softplus(x):
+    return -2.0 * torch.nn.functional.softplus(-x)
+
+
+def _u_exp(x):
+    return -torch.exp(-x)
 
 
 USER = [LinearLoss, CustomExpLoss, WorstCase, MeanSemiDev]
@@ -242,7 +250,15 @@ def setup(ctx):
 
 # ---- drivers -----------------------------------------------------------------------------------------------
 def make_crit(rng):
-    kind = pick(rng, ["erm", "el", "iso", "es", "qcvar", "user", "user", "iso"])
+    kind = pick(rng, ["erm", "el", "iso", "es", "qcvar", "user", "user", "iso", "oce"])
+    if kind == "oce":
+        # optimised certainty equivalent with its wealth parameter away from its initial value (as after training) and a non-exponential utility
+        from pfhedge.nn.modules.loss import OCE
+
+        c = OCE(pick(rng, [_u_softplus, _u_exp, _u_softplus]))
+        with torch.no_grad():
+            c.w.fill_(float(pick(rng, [0.3, -0.4, 0.0, 1.0])))
+        return c, kind
     if kind == "erm":
         # incl. large risk aversion: the entropic risk measure (and its cash amount) must stay finite for any finite input
         return EntropicRiskMeasure(float(pick(rng, [0.5, 1.0, 3.0, 10.0, 50.0]))), kind
@@ -260,6 +276,9 @@ def make_crit(rng):
 def drv_cash(ctx, k, rng):
     crit, kind = make_crit(rng)
     dtype = pick(rng, [F32, F64, F64])
+    if kind == "oce":
+        crit.to(dtype)
+        ctx.branch("cash.oce_with_nonzero_w" if float(crit.w) != 0.0 else "cash.oce")
     n = int(pick(rng, [1, 2, 5, 30, 300]))
     trail = pick(rng, [(), (), (), (3,), (2, 2)])
     style = pick(rng, ["gauss", "ties", "heavy", "twopoint", "const", "uniform", "lognormal"])
@@ -308,8 +327,10 @@ def _bonus(k_):
 
 def drv_price(ctx, k, rng):
     crit, kind = make_crit(rng)
-    if kind in ("iso",):
-        crit, kind = EntropicRiskMeasure(1.0), "erm"  # hedging P&L takes both signs: outside the isoelastic domain
+    if kind in ("iso", "oce"):
+        # hedging P&L takes both signs: outside the isoelastic domain; a certainty equivalent under a non-exponential utility (OCE with w held
+        # fixed) is not translation invariant, so the shift relation below is not one of its properties
+        crit, kind = EntropicRiskMeasure(1.0), "erm"
     dtype = pick(rng, [None, F64])
     derivative, hedge, hedger, n_paths, desc = P.scenario(rng, dtype=dtype, criterion=crit, n_paths=int(pick(rng, [4, 30])),
                                                          model_kind=pick(rng, ["bs", "ww", "mlp", "linear", "mlp_prev"]))
